@@ -624,7 +624,7 @@ Definition l_sp : str := Eval vm_compute in lit "sp".
 Definition l_hsp : str := Eval vm_compute in lit "hsp".
 
 (* integertype.go:427 integerValue.ToString; float_cb = floatValue.ToString under
-   NewFormatContext(DefaultFloatType(), f, ..) (the converted value is finite, so GetFormat gives f) *)
+   NewFormatContext(DefaultFloatType(), f, ..) (the unbounded Float type accepts the type of every float, so GetFormat gives f) *)
 Definition render_integer (o : oracle) (float_cb : format -> Z -> obs) (f : format) (n : Z) : obs :=
   let c := f_char f in
   if mem c l_xXodb then OText (go_fmt_int f c n)
@@ -777,26 +777,24 @@ Definition tkey_eqb (a b : tkey) : bool :=
   | _, _ => false
   end.
 
-(* IsAssignable(default type of the key, v.PType()).  Float = Float[-MaxFloat64, MaxFloat64]
-   (floattype.go:25) accepts neither NaN nor the infinities; Numeric and Scalar go by kind
-   (numerictype.go:86, scalartype.go:33), ScalarData asks Float (scalardatatype.go:33).
-   KSelf on a scalar is only asked for the value itself: T accepts T except Float[NaN, NaN]
-   (floattype.go:146, NaN <= NaN is false); on containers it is the oracle. *)
+(* IsAssignable(default type of the key, v.PType()).  Float is the unbounded Float type Float[-Inf, +Inf]
+   (floattype.go:26): it accepts the type of every float - of the infinities, and of NaN, whose type it is
+   (floattype.go:408); Numeric and Scalar go by kind (numerictype.go:86, scalartype.go:33), ScalarData asks Float
+   (scalardatatype.go:33).  KSelf on a scalar is only asked for the value itself: T accepts T; on containers it
+   is the oracle. *)
 Definition key_accepts (o : oracle) (k : tkey) (v : value) : R bool :=
-  let finite b := negb (f_is_nan b) && negb (f_is_inf b) in
   match k with
   | KAny => ROk true
   | KSelf => match v with
              | VArr _ | VHash _ =>
                match assoc value_eqb v (o_self o) with Some b => ROk b | None => RErr EOracle end
-             | VFloat b => ROk (negb (f_is_nan b))
              | _ => ROk true
              end
   | KObject | KType => ROk false
   | _ =>
     ROk (match v with
          | VInt _ => match k with KScalar | KScalarData | KNumeric | KInteger => true | _ => false end
-         | VFloat b => match k with KScalar | KNumeric => true | KScalarData | KFloat => finite b | _ => false end
+         | VFloat b => match k with KScalar | KNumeric | KScalarData | KFloat => true | _ => false end
          | VStr _ => match k with KScalar | KScalarData | KString => true | _ => false end
          | VBool _ => match k with KScalar | KScalarData | KBoolean => true | _ => false end
          | VUndef => match k with KUndef => true | _ => false end
